@@ -432,15 +432,21 @@ pub fn multof_case(out: &mut Out, env: &TokEnv, m: u64) {
 fn multiple_case(rng: &mut Rng, out: &mut Out, env: &TokEnv) {
     let integer = rng.chance(1, 2);
     // step = sm * 10^-ss
-    let (sm, ss): (i128, u32) = if integer || rng.chance(1, 2) { (rng.range(1, 13) as i128, 0) } else { (*rng.pick(&[5i128, 25, 1, 2, 125, 3, 15]), rng.range(1, 3) as u32) };
+    // integer schemas get a fractional step too (2.5 admits 5, 10, ...; 0.8 admits 4, 8, ...)
+    let (sm, ss): (i128, u32) = if (integer && rng.chance(2, 3)) || (!integer && rng.chance(1, 2)) { (rng.range(1, 13) as i128, 0) } else { (*rng.pick(&[5i128, 25, 1, 2, 125, 3, 15, 8, 75, 12]), rng.range(1, 3) as u32) };
     let lo = rng.below(60) as i128 - 30;
     let hi = lo + rng.below(40) as i128;
     let (xlo, xhi) = (rng.chance(1, 3), rng.chance(1, 3));
+    let has_lo = rng.chance(4, 5);
+    let has_hi = rng.chance(4, 5);
+    multiple_case_with(out, env, integer, sm, ss, lo, hi, xlo, xhi, has_lo, has_hi);
+}
+
+#[allow(clippy::too_many_arguments)]
+fn multiple_case_with(out: &mut Out, env: &TokEnv, integer: bool, sm: i128, ss: u32, lo: i128, hi: i128, xlo: bool, xhi: bool, has_lo: bool, has_hi: bool) {
     let mut parts = vec![format!("\"type\":\"{}\"", if integer { "integer" } else { "number" })];
     let step = Dec { mant: sm, scale: ss };
     parts.push(format!("\"multipleOf\":{}", step.text()));
-    let has_lo = rng.chance(4, 5);
-    let has_hi = rng.chance(4, 5);
     if has_lo {
         parts.push(format!("\"{}\":{}", if xlo { "exclusiveMinimum" } else { "minimum" }, lo));
     }
@@ -486,6 +492,10 @@ fn multiple_case(rng: &mut Rng, out: &mut Out, env: &TokEnv) {
         }
         Ok(m) => {
             out.count("multiple_compiled", 1);
+            // for integer schemas the literal list holds every candidate, so emptiness is decided exactly
+            if integer && has_lo && has_hi && !any_inside {
+                out.violation("integer bounds with multipleOf admit no value but the schema compiled", schema.clone());
+            }
             for l in &lits {
                 if l.starts_with("-0") && Dec::parse(l).mant == 0 {
                     continue;
@@ -584,6 +594,18 @@ pub fn run(rng: &mut Rng, out: &mut Out, tier: &str) {
     for i in 0..n {
         let mut r = rng.fork(0x0900_0000 + i as u64);
         multiple_case(&mut r, out, &env);
+    }
+    // integer schemas with a fractional step over narrow ranges (the range may hold fractional multiples only)
+    let wmax: i128 = if tier == "thorough" { 6 } else { 3 };
+    for (sm, ss) in [(8i128, 1u32), (12, 1), (25, 1), (15, 1), (75, 1), (5, 1), (125, 2), (4, 1)] {
+        for lo in -12i128..=12 {
+            for w in 0..=wmax {
+                multiple_case_with(out, &env, true, sm, ss, lo, lo + w, false, false, true, true);
+                if w >= 1 && (lo + w) % 3 == 0 {
+                    multiple_case_with(out, &env, true, sm, ss, lo, lo + w, true, true, true, true);
+                }
+            }
+        }
     }
     lcm_cases(rng, out, &env, if tier == "thorough" { 400 } else { 60 });
 }
